@@ -80,6 +80,8 @@ def spec_targets(line, is_zoq):
                 in_prefix = False
             else:
                 out.append(zw)
+                if zw != w:
+                    in_prefix = False        # a bracketed ZID is a reference: the identity position is over
             continue
         if in_prefix and (w in ("-", "o", "x", "~", "<", ">", "") or re.fullmatch(r"P\d", w) or re.fullmatch(r"\d{6}", w)):
             continue
@@ -103,8 +105,11 @@ def spec_targets_without(line, is_zoq, dropped):
             elif in_prefix and not primary_seen and zw == w and idx > 0:
                 primary_seen = True
                 in_prefix = False
-            elif idx not in dropped:
-                out.append(zw)
+            else:
+                if idx not in dropped:
+                    out.append(zw)
+                if zw != w:
+                    in_prefix = False
             continue
         if in_prefix and (w in ("-", "o", "x", "~", "<", ">", "") or re.fullmatch(r"P\d", w) or re.fullmatch(r"\d{6}", w)):
             continue
@@ -129,6 +134,8 @@ def spec_target_positions(line, is_zoq):
                 in_prefix = False
             else:
                 pos.add(idx)
+                if zw != w:
+                    in_prefix = False
             continue
         if in_prefix and (w in ("-", "o", "x", "~", "<", ">", "") or re.fullmatch(r"P\d", w) or re.fullmatch(r"\d{6}", w)):
             continue
